@@ -1097,3 +1097,134 @@ Example sync_drops_class_on_refusal :
   let r := sync_step ex_cfg 0 2 (mkSin 100 50) s in
   st_xc (sr_st r) = None /\ sr_err r = true /\ sr_xcmds r = 1.
 Proof. vm_compute. repeat split; reflexivity. Qed.
+
+(** * wants_update: the rule in arithmetic form (certificate with a trailing slash, not the trust anchor) *)
+Theorem wants_update_spec cur_res new_res cur_na new_na now :
+  wants_update true false cur_res new_res cur_na new_na now = true <->
+  new_res <> cur_res
+  \/ (let rc := (cur_na - now)%Z in let re := (new_na - now)%Z in
+      (0 < re /\ rc <> re /\ ((0 < rc /\ 10 * re < 9 * rc) \/ rc <= 0 \/ 11 * rc < 10 * re \/ 604800 <= re - rc))%Z).
+Proof.
+  unfold wants_update. cbv zeta. cbn [negb]. destruct (new_res =? cur_res) eqn:E.
+  - apply N.eqb_eq in E. cbn [negb].
+    destruct (new_na - now <=? 0)%Z eqn:E1; [apply Z.leb_le in E1; split; [discriminate|intros [H|H]; [congruence|lia]]|].
+    apply Z.leb_gt in E1.
+    destruct (cur_na - now =? new_na - now)%Z eqn:E2; [apply Z.eqb_eq in E2; split; [discriminate|intros [H|H]; [congruence|lia]]|].
+    apply Z.eqb_neq in E2.
+    destruct ((0 <? cur_na - now)%Z && (10 * (new_na - now) <? 9 * (cur_na - now))%Z) eqn:E3.
+    + apply andb_true_iff in E3. destruct E3 as [A B]. apply Z.ltb_lt in A, B. split; [intros _; right; lia|reflexivity].
+    + destruct ((cur_na - now <=? 0)%Z || (11 * (cur_na - now) <? 10 * (new_na - now))%Z || (604800 <=? new_na - now - (cur_na - now))%Z) eqn:E4.
+      * split; [intros _; right|reflexivity].
+        apply orb_true_iff in E4. destruct E4 as [E4|E4]; [apply orb_true_iff in E4; destruct E4 as [E4|E4]|];
+          [apply Z.leb_le in E4|apply Z.ltb_lt in E4|apply Z.leb_le in E4]; lia.
+      * split; [discriminate|]. intros [H|H]; [congruence|].
+        apply orb_false_iff in E4. destruct E4 as [E4 E6]. apply orb_false_iff in E4. destruct E4 as [E4 E5].
+        apply Z.leb_gt in E4, E6. apply Z.ltb_ge in E5.
+        apply andb_false_iff in E3. destruct E3 as [E3|E3]; [apply Z.ltb_ge in E3|apply Z.ltb_ge in E3]; lia.
+  - apply N.eqb_neq in E. cbn [negb]. split; [intros _; left; exact E|reflexivity].
+Qed.
+
+Example wants_update_rule_points :
+  (* unchanged *) wants_update true false 3 3 1000000 1000000 0 = false
+  /\ (* 5 % more, less than a week *) wants_update true false 3 3 1000000 1050000 0 = false
+  /\ (* 11 % more *) wants_update true false 3 3 1000000 1110001 0 = true
+  /\ (* a week more on a long-lived certificate *) wants_update true false 3 3 31449600 32054400 0 = true
+  /\ (* 11 % less *) wants_update true false 3 3 1000000 889999 0 = true
+  /\ (* eligible time in the past *) wants_update true false 3 3 1000000 (-5) 0 = false
+  /\ (* resources changed *) wants_update true false 3 7 1000000 1000000 0 = true.
+Proof. vm_compute. repeat split; reflexivity. Qed.
+
+(** * The last step of a key roll: the old key is revoked, then the driver goes on as from an active key *)
+Section Sync3.
+  Variables (cfg : tcfg) (pcn parent : N).
+
+  Lemma p_revoke_ok pc dch crcn ki :
+    name_in_parent (dc_ch dch) crcn = pcn -> ch_is_issued (dc_ch dch) ki = true ->
+    p_revoke pcn (Some pc) dch crcn ki
+    = Some (Some (dc_with_certs pc (aremove ki (d_issued pc)) (aremove ki (d_susp pc))), ch_with dch (ch_set_used (dc_ch dch) ki Revoked), 1).
+  Proof. intros Hn Hi. unfold p_revoke. rewrite Hn, N.eqb_refl, Hi. reflexivity. Qed.
+
+  Lemma step_rollold inp s pc R x cur old :
+    pgood pcn s pc R -> st_xc s = Some x -> d_keys x = KRollOld cur old -> unlimited x ->
+    d_prcn x = name_for_child (dc_ch (st_ch s)) pcn ->
+    ch_is_issued (dc_ch (st_ch s)) (k_id old) = true ->
+    (k_req cur = true -> inter R (dc_ent (st_ch s)) <> 0) ->
+    let r := sync_step cfg pcn parent inp s in
+    settledb pcn (sr_st r) = true
+    \/ (exists pc', pgood pcn (sr_st r) pc' R /\ start_ok pcn (sr_st r) /\ has_pending_requests (st_xc (sr_st r)) = false).
+  Proof.
+    intros Hg Hx Hk Hun Hp Hiss Hne. pose proof Hg as [Hpc Hcur Hns Hmap].
+    unfold sync_step, has_pending_requests. rewrite Hx, Hk.
+    replace (match ks_requests (KRollOld cur old) with [] => match ks_revoke_request (KRollOld cur old) with Some _ => true | None => false end | _ :: _ => true end) with true
+      by (simpl; destruct (k_req cur), (k_req old); reflexivity).
+    cbv beta iota. rewrite (p_contact_nosusp cfg pcn inp _ _ Hns). cbv beta iota. rewrite Hpc.
+    rewrite (p_revoke_ok pc (st_ch s) (d_prcn x) (k_id old)); [|rewrite Hp; exact Hmap|exact Hiss].
+    cbv beta iota. cbn [st_xc dc_with_keys dc_with d_keys ks_requests].
+    set (pc' := dc_with_certs pc _ _). set (ch' := ch_with (st_ch s) _).
+    set (x' := mkDC (d_parent x) (d_prcn x) (KActive cur) (d_kna x) (d_issued x) (d_susp x) (d_roas x)).
+    set (s1 := mkSst (Some pc') ch' (Some x') (st_xroutes s)).
+    assert (Hg1 : pgood pcn s1 pc' R) by (constructor; [reflexivity|exact Hcur|exact Hns|exact Hmap]).
+    assert (Hun1 : unlimited x') by (destruct Hun; split; assumption).
+    destruct (k_req cur) eqn:Hr.
+    - left. refine (proj1 (send_one cfg pcn inp s1 pc' R x' (k_id cur) _ _ Hg1 eq_refl Hun1 Hp _ (Hne eq_refl))). reflexivity.
+    - right. cbn [send_cert_requests sr_st]. exists pc'. split; [exact Hg1|]. split.
+      + unfold start_ok. cbn [st_xc s1]. split; [exact Hun1|]. split; [exact Hp|]. right. exists cur. reflexivity.
+      + cbn. rewrite Hr. reflexivity.
+  Qed.
+
+  (** From the last phase of a key roll at most three syncs reach Settled - provided the parent still knows the old
+      key (otherwise the revocation is refused for ever: candidate finding F02d, [sync_stuck_revoke_witness]). *)
+  Theorem sync_converges_rollold i1 i2 i3 s pc R x cur old :
+    pgood pcn s pc R -> st_xc s = Some x -> d_keys x = KRollOld cur old -> unlimited x ->
+    d_prcn x = name_for_child (dc_ch (st_ch s)) pcn ->
+    ch_is_issued (dc_ch (st_ch s)) (k_id old) = true ->
+    (k_req cur = true -> inter R (dc_ent (st_ch s)) <> 0) ->
+    settledb pcn (sync_n cfg pcn parent [i1] s) = true
+    \/ settledb pcn (sync_n cfg pcn parent [i1; i2] s) = true
+    \/ settledb pcn (sync_n cfg pcn parent [i1; i2; i3] s) = true.
+  Proof.
+    intros Hg Hx Hk Hun Hp Hiss Hne.
+    destruct (step_rollold i1 s pc R x cur old Hg Hx Hk Hun Hp Hiss Hne) as [H|[pc' [Hg' [Hs' Hnp]]]]; [left; exact H|].
+    right. cbn [sync_n].
+    destruct (sync_converges cfg pcn parent i2 i3 _ pc' R Hg' Hs') as [H|H].
+    - rewrite Hnp. discriminate.
+    - left. exact H.
+    - right. exact H.
+  Qed.
+End Sync3.
+
+(** F02d at the level of the model: the parent removed the certificate of the child's old key (its own
+    certificate shrank to nothing the child's certificates held) while the child was waiting to have it
+    revoked: the revocation request is refused, every sync fails, the child stays in the roll. *)
+Definition stuck_revoke_state : sst :=
+  mkSst (Some (mkDC 1 0 (KActive (mkCK 1 (mkCert 1 0xF000F 0) false)) [] [] [] []))
+        (mkDCh 0x30003 (mkChild false [(7, Revoked); (8, Revoked)] []))
+        (Some (mkDC 2 0 (KRollOld (mkCK 8 (mkCert 8 0x30003 0) false) (mkCK 7 (mkCert 7 0x30003 0) false)) [] [] [] [])) [].
+
+Example sync_stuck_revoke_witness :
+  let ins := [mkSin 100 50; mkSin 200 51; mkSin 300 52; mkSin 400 53] in
+  sync_n ex_cfg 0 2 ins stuck_revoke_state = stuck_revoke_state
+  /\ settledb 0 stuck_revoke_state = false
+  /\ sr_err (sync_step ex_cfg 0 2 (mkSin 100 50) stuck_revoke_state) = true.
+Proof. vm_compute. repeat split; reflexivity. Qed.
+
+(** further non-vacuity examples *)
+Example shrink_same_command_nonvacuous :
+  let dc := mkDC 1 0 (KActive (mkCK 1 (mkCert 1 0xF000F 0) false)) [] [(7, mkIC 0x3000C no_limit 0)] [(8, mkIC 0x30003 no_limit 0)] [] in
+  let s := mkDCA [(0, dc)] [(5, mkDCh 0x3000C (mkChild false [(7, InUse 0)] [])); (6, mkDCh 0x30003 (mkChild true [(8, InUse 0)] []))] [] 1 in
+  contained dc /\ ks_wf (d_keys dc)
+  /\ exists s', dprocess s (XReceived 0 (mkCert 1 0x10005 0) 0 0) = Done s'
+               /\ aget 0 (da_classes s') = Some (mkDC 1 0 (KActive (mkCK 1 (mkCert 1 0x10005 0) false)) [(1, 0%Z)]
+                                                  [(7, mkIC 0x10004 no_limit 0)] [(8, mkIC 0x10001 no_limit 0)] []).
+Proof.
+  simpl. split; [split; repeat constructor|]. split; [exact I|]. eexists. split; vm_compute; reflexivity.
+Qed.
+
+Example sync_converges_rollold_nonvacuous :
+  let x := mkDC 2 0 (KRollOld (mkCK 8 (mkCert 8 0x30003 0) false) (mkCK 7 (mkCert 7 0x30003 0) false)) [] [] [] [] in
+  let p := mkDC 1 0 (KActive (mkCK 1 (mkCert 1 0xF000F 0) false)) [] [(7, mkIC 0x30003 no_limit 31449600); (8, mkIC 0x30003 no_limit 31449600)] [] [] in
+  let s := mkSst (Some p) (mkDCh 0x70007 (mkChild false [(7, InUse 0); (8, InUse 0)] [])) (Some x) [] in
+  pgood 0 s p 0xF000F /\ ch_is_issued (dc_ch (st_ch s)) 7 = true
+  /\ settledb 0 (sync_n ex_cfg 0 2 [mkSin 100 50; mkSin 200 51] s) = false
+  /\ settledb 0 (sync_n ex_cfg 0 2 [mkSin 100 50; mkSin 200 51; mkSin 300 52] s) = true.
+Proof. split; [constructor; reflexivity|]. vm_compute. repeat split; reflexivity. Qed.
